@@ -7,6 +7,7 @@ import Driver.Srv
 import Driver.Rooms
 import Driver.Backoff
 import Driver.Heartbeat
+import Driver.Ack
 /-
   Line-protocol driver: one request per line on stdin, one canonical answer per line on stdout.
   The same request lines are executed by the Go harness against the real implementation.
@@ -26,6 +27,7 @@ def step (line : String) : String :=
   | "rm" :: rest => rmLine rest
   | "bo" :: rest => boLine rest
   | "hb" :: rest => hbLine rest
+  | "ack" :: rest => ackLine rest
   | "rc" :: rest => rcLine toks.tail!
   | _ => "bad-op"
 
